@@ -1,19 +1,26 @@
 import Driver.Util
 import ImmuModel.Tx.Concrete
 import ImmuModel.Store.Replica
+import ImmuModel.Store.ReplicaDisk
 import ImmuModel.Store.SyncRepl
 namespace Driver.C07
 open ImmuModel ImmuModel.Tx ImmuModel.Replica ImmuModel.SyncRepl
 
 abbrev RS := RSt Digest
+/-- store + disk (`Store/ReplicaDisk.lean`): which tx-log records are fsynced -/
+abbrev DS := DSt Digest
 
 structure St where
-  stores : List (String × RS) := []
+  stores : List (String × DS) := []
   prims : List (String × Prim) := []
 
-def getS (st : St) (n : String) : Option RS := (st.stores.find? (·.1 == n)).map (·.2)
-def putS (st : St) (n : String) (s : RS) : St :=
+def getS (st : St) (n : String) : Option DS := (st.stores.find? (·.1 == n)).map (·.2)
+def putS (st : St) (n : String) (s : DS) : St :=
   { st with stores := (n, s) :: st.stores.filter (·.1 != n) }
+
+/-- an operation of `Store/Replica.lean` that is not wrapped in `ReplicaDisk.lean` (database-level allowance, switching
+the external allowance): records only leave the FRONT of the log (commit), the fsynced count follows -/
+def DSt.withSt (d : DS) (s : RS) : DS := { d with st := s, fs := d.fs - (d.st.log.length - s.log.length) }
 def getP (st : St) (n : String) : Option Prim := (st.prims.find? (·.1 == n)).map (·.2)
 def putP (st : St) (n : String) (p : Prim) : St :=
   { st with prims := (n, p) :: st.prims.filter (·.1 != n) }
@@ -58,7 +65,7 @@ def fmtParsed (p : Parsed) : String :=
   let hb := match hdrBytes p.hdr with | .ok b => Bytes.toHex b | .error _ => "unserialisable"
   s!"ok {hb} {if p.truncated then 1 else 0} {if es.isEmpty then "_" else ",".intercalate es}"
 
-def withStore (st : St) (n : String) (f : RS → St × String) : St × String :=
+def withStore (st : St) (n : String) (f : DS → St × String) : St × String :=
   match getS st n with
   | some s => f s
   | none => (st, "bad-op:no-store")
@@ -67,48 +74,55 @@ def step (st : St) : List String → St × String
   | ["new", n, ma, mk, mv, me, sy, ex] =>
     match ma.toNat?, mk.toNat?, mv.toNat?, me.toNat?, b? sy, b? ex with
     | some ma, some mk, some mv, some me, some sy, some ex =>
-      (putS st n { cfg := { maxActive := ma, maxKeyLen := mk, maxValueLen := mv, maxTxEntries := me, synced := sy, extAllowance := ex } }, "ok")
+      (putS st n { st := { cfg := { maxActive := ma, maxKeyLen := mk, maxValueLen := mv, maxTxEntries := me, synced := sy, extAllowance := ex } } }, "ok")
     | _, _, _, _, _, _ => (st, "bad-op")
   | ["rep", n, hex, sk] =>
     match Bytes.ofHex hex, b? sk with
     | some b, some sk => withStore st n fun s =>
-      let r := replicate shaHs s b sk
-      (putS st n r.st, match r.out with
+      let r := replicate shaHs s.st b sk
+      (putS st n (s.replicate shaHs b sk), match r.out with
         | .ok rc => s!"ok {rc.hdr.id} {hexD rc.alh}"
         | .error e => fmtErr e)
     | _, _ => (st, "bad-op")
   | ["sync", n] => withStore st n fun s =>
-      let r := sync s
-      (putS st n r.st, match r.out with | .ok _ => "ok" | .error e => fmtErr e)
+      let r := sync s.st
+      (putS st n s.sync, match r.out with | .ok _ => "ok" | .error e => fmtErr e)
   | ["discard", n, id] =>
     match id.toNat? with
     | some id => withStore st n fun s =>
-      let r := discardSince s id
-      (putS st n r.st, match r.out with | .ok k => s!"ok {k}" | .error e => fmtErr e)
+      let r := discardSince s.st id
+      (putS st n (s.discard id), match r.out with | .ok k => s!"ok {k}" | .error e => fmtErr e)
     | none => (st, "bad-op")
   | ["allow", n, id] =>
     match id.toNat? with
     | some id => withStore st n fun s =>
-      let r := allowCommitUpto s id
-      (putS st n r.st, match r.out with | .ok _ => "ok" | .error e => fmtErr e)
+      let r := allowCommitUpto s.st id
+      (putS st n (s.allow id), match r.out with | .ok _ => "ok" | .error e => fmtErr e)
     | none => (st, "bad-op")
   | ["dballow", n, id, alh] =>
     match id.toNat?, Bytes.ofHex alh with
     | some id, some alh => withStore st n fun s =>
-      let r := dbAllowCommitUpto shaHs s id alh
-      (putS st n r.st, match r.out with | .ok _ => "ok" | .error e => fmtErr e)
+      let r := dbAllowCommitUpto shaHs s.st id alh
+      (putS st n (DSt.withSt s r.st), match r.out with | .ok _ => "ok" | .error e => fmtErr e)
     | _, _ => (st, "bad-op")
   | ["setext", n, e] =>
     match b? e with
-    | some e => withStore st n fun s => (putS st n (setExtAllowance s e), "ok")
+    | some e => withStore st n fun s => (putS st n (DSt.withSt s (setExtAllowance s.st e)), "ok")
     | none => (st, "bad-op")
-  | ["restart", n] => withStore st n fun s => (putS st n (restart shaHs s), "ok")
-  | ["state", n] => withStore st n fun s => (st, fmtState s)
+  | ["restart", n] => withStore st n fun s => (putS st n (s.restart shaHs), "ok")
+  -- power loss + Open: only the fsynced records of the tx log are left
+  | ["crash", n] => withStore st n fun s => (putS st n (s.crash shaHs), "ok")
+  | ["state", n] => withStore st n fun s => (st, fmtState s.st)
+  -- the watermark wait of ReplicateTx / WaitForTx(id, allowPrecommitted), asked without waiting
+  | ["wait", n, id] =>
+    match id.toNat? with
+    | some id => withStore st n fun s => (st, if s.st.durableReached id then "ok" else "waiting")
+    | none => (st, "bad-op")
   | ["export", n, id, sk] =>
     match id.toNat?, b? sk with
     | some id, some sk => withStore st n fun s =>
       if id = 0 then (st, "err:illegal") else
-      match s.chain[id - 1]? with
+      match s.st.chain[id - 1]? with
       | none => (st, "err:not-found")
       | some rc => (st, match exportRec shaHs sk rc with | .ok b => Bytes.toHexTok b | .error e => fmtErr e)
     | _, _ => (st, "bad-op")
